@@ -130,14 +130,22 @@ theorem measureCore_spec (st : State ℂ ℝ) (hw : WF st) (q : ℕ) (r : ℝ) :
   have hp1 : mass complexOps st.amps q true = massSpec (absArr st.amps) (2 ^ st.n) q true := by
     rw [mass_eq_massSpec, hw.size]
   generalize hb : decide (r < massSpec (absArr st.amps) (2 ^ st.n) q true) = b
-  have hlt : complexOps.lt r (mass complexOps st.amps q true) = b := by
-    rw [hp1, ← hb]; rfl
+  have hp0 : mass complexOps st.amps q false = massSpec (absArr st.amps) (2 ^ st.n) q false := by
+    rw [mass_eq_massSpec, hw.size]
+  have htot : massSpec (absArr st.amps) (2 ^ st.n) q false +
+      massSpec (absArr st.amps) (2 ^ st.n) q true = 1 := by
+    rw [add_comm, massSpec_add]; exact hw.norm
+  have hlt : complexOps.lt (complexOps.mul r (complexOps.add (mass complexOps st.amps q false)
+      (mass complexOps st.amps q true))) (mass complexOps st.amps q true) = b := by
+    rw [hp1, hp0, ← hb]
+    show decide (r * (_ + _) < _) = _
+    rw [htot, mul_one]
   have hnorm : complexOps.sqrt (if b then mass complexOps st.amps q true
-      else complexOps.sub complexOps.one (mass complexOps st.amps q true)) =
+      else mass complexOps st.amps q false) =
       Real.sqrt (massSpec (absArr st.amps) (2 ^ st.n) q b) := by
-    rw [hp1]
-    show Real.sqrt (if b then _ else (1 : ℝ) - _) = _
-    rw [branch_norm _ _ _ hw.norm]
+    rw [hp1, hp0]
+    show Real.sqrt (if b then _ else _) = _
+    cases b <;> rfl
   obtain ⟨cs1, cs2⟩ := collapse_spec complexOps st.amps q b
     (Real.sqrt (massSpec (absArr st.amps) (2 ^ st.n) q b))
   unfold measureCore
@@ -183,14 +191,22 @@ theorem resetCore_spec (st : State ℂ ℝ) (hw : WF st) (q : ℕ) (hq : q < st.
   have hp1 : mass complexOps st.amps q true = massSpec (absArr st.amps) (2 ^ st.n) q true := by
     rw [mass_eq_massSpec, hw.size]
   generalize hb : decide (r < massSpec (absArr st.amps) (2 ^ st.n) q true) = b
-  have hlt : complexOps.lt r (mass complexOps st.amps q true) = b := by
-    rw [hp1, ← hb]; rfl
+  have hp0 : mass complexOps st.amps q false = massSpec (absArr st.amps) (2 ^ st.n) q false := by
+    rw [mass_eq_massSpec, hw.size]
+  have htot : massSpec (absArr st.amps) (2 ^ st.n) q false +
+      massSpec (absArr st.amps) (2 ^ st.n) q true = 1 := by
+    rw [add_comm, massSpec_add]; exact hw.norm
+  have hlt : complexOps.lt (complexOps.mul r (complexOps.add (mass complexOps st.amps q false)
+      (mass complexOps st.amps q true))) (mass complexOps st.amps q true) = b := by
+    rw [hp1, hp0, ← hb]
+    show decide (r * (_ + _) < _) = _
+    rw [htot, mul_one]
   have hnorm : complexOps.sqrt (if b then mass complexOps st.amps q true
-      else complexOps.sub complexOps.one (mass complexOps st.amps q true)) =
+      else mass complexOps st.amps q false) =
       Real.sqrt (massSpec (absArr st.amps) (2 ^ st.n) q b) := by
-    rw [hp1]
-    show Real.sqrt (if b then _ else (1 : ℝ) - _) = _
-    rw [branch_norm _ _ _ hw.norm]
+    rw [hp1, hp0]
+    show Real.sqrt (if b then _ else _) = _
+    cases b <;> rfl
   obtain ⟨cs1, cs2⟩ := collapse_spec complexOps st.amps q b
     (Real.sqrt (massSpec (absArr st.amps) (2 ^ st.n) q b))
   have csz : (collapse complexOps st.amps q b
